@@ -17,23 +17,36 @@ import base64, ipaddress, itertools, os, re, socket
 from .. import common as C
 
 MANIFEST = dict(
-    text="Lean 4 theorems over an executable model of mod_access_check / array_match_* / mod_auth rule "
-         "lookup / static-file exclusion / url-host-remoteip scoped rules / path-info split and second "
-         "access check / mod_extforward (X-Forwarded-For and Forwarded walks, trust of the TCP peer), "
-         "composed with the request-target canonicalisation model: decisions are functions of the "
-         "canonical path only, are case-folded under force-lowercase-filenames, a file the rules refuse "
-         "at its own URL is refused under every spelling that resolves to it, prefix rules survive "
-         "path-info, the client address changes only for trusted peers and then to the right-most "
-         "untrusted hop; model tied to the C (real config parser, real plugin dispatch, real "
-         "http_response_handler on a real directory tree; thorough: real server over sockets, h1+h2) by "
-         "differential runs under ASan/UBSan with a reference rule evaluator as property oracle",
-    note="trusted: Lean kernel, hand-written model validated by the h_access correspondence, libc "
-         "inet_pton/getaddrinfo and PCRE2's UTF-8 check modelled and validated, condition cache soundness "
-         "is C14's, credential checking is C16's; three upstream design limits that contradict the "
-         "property as stated are Lean counterexample theorems and known findings KF2-KF4 "
-         "(known:L1-/L2-/L3-): regex conditions vs non-UTF-8 path-info, case-sensitive url conditions "
-         "under force-lowercase, auth.require conditions not re-evaluated after the path-info split",
-    tech="Lean 4 proof over hand-written model + differential correspondence (in-process C harness, e2e)",
+    text="PROVED (Lean 4, over a hand-written executable model of mod_access_check / array_match_* / mod_auth "
+         "first-prefix-match rule lookup with per-rule users / static-file exclusion and disable-pathinfo / "
+         "url-host-remoteip conditions incl. nesting and else / path-info split and second access check / "
+         "mod_extforward): a served file passed mod_access on the full path and on its own post-split URL for "
+         "the client address the request was really attributed to, is not excluded, and the rule guarding the "
+         "full path accepted the user; hence a file the rules refuse at its own URL is never sent under any "
+         "spelling that resolves to it (case-sensitive, and force-lowercase when the assigning blocks are "
+         "case-blind); auth guarded by rule i => accepted by a rule <= i; decisions are case-folded under "
+         "force-lowercase; `==`/`!=` host blocks and port-tolerant regexes give `name:port` (<= 5 digits) the "
+         "response of `name`; headers of an untrusted peer change nothing; X-Forwarded-For yields exactly the "
+         "right-most untrusted token whatever bytes precede the proxy's `, addr`; the Forwarded walk never "
+         "skips an untrusted hop and never runs on a list truncated by the offsets[] capacity. "
+         "TESTED ONLY (differential correspondence + independent reference-evaluator oracle, not theorems): "
+         "that the model is the C (real config parser, plugin dispatch, http_response_handler, real tree; "
+         "thorough: real server, h1+h2); that respellings (percent-encoding, hex case, dot segments, "
+         "duplicate/encoded slashes, NUL/ctl bytes, absolute-form, HTTP/1 vs HTTP/2, composed to depth 4/7) "
+         "reach the same canonical path under every parse-option profile; the Forwarded tokenizer's handling "
+         "of an attacker prefix at byte level (only its capacity and the walk are theorems)",
+    note="level: proof over a model + correspondence. trusted: Lean kernel, the model's fidelity (h_access "
+         "correspondence), libc inet_pton/getaddrinfo and PCRE2's UTF-8 check (modelled, validated exhaustively "
+         "at small scope), C14's condition cache, C16's credential check, C01/C02 models of the request head "
+         "and target. Known findings (upstream design limits that contradict the property as stated, each a "
+         "Lean counterexample theorem and a fixed scenario): KF2 known:L1- regex conditions vs non-UTF-8 "
+         "path-info, KF3 known:L2- case-sensitive url conditions under force-lowercase, KF4 known:L3- mod_auth "
+         "evaluated only before the path-info split (condition form and rule-order form). Not modelled: "
+         "conditional server.force-lowercase-filenames, auth.extern-authn, extforward.params, hap-PROXY, "
+         "per-request variation of extforward.forwarder on one connection (trust is cached per connection)",
+    tech="Lean 4 proof over hand-written model + differential correspondence (in-process C harness with the "
+         "real configuration parser and plugin dispatch; thorough tier: end to end against the real server) "
+         "+ independent reference-evaluator oracle",
     ref="6/C03")
 
 hx = C.hx
@@ -106,13 +119,25 @@ def make_root():
             with open(full, "wb") as f:
                 f.write(p)
     with open(os.path.join(root, "users.txt"), "w") as f:
-        f.write("alice:wonderland\n")
+        f.write("alice:wonderland\nadmin:sesame\nbob:builder\n")
     _root = root
     return root
 
 
 GOOD_CRED = b"Basic " + base64.b64encode(b"alice:wonderland")
+ADMIN_CRED = b"Basic " + base64.b64encode(b"admin:sesame")
+BOB_CRED = b"Basic " + base64.b64encode(b"bob:builder")
 BAD_CRED = b"Basic " + base64.b64encode(b"alice:guess")
+USER_OF = {GOOD_CRED: b"alice", ADMIN_CRED: b"admin", BOB_CRED: b"bob"}
+
+
+def rule_pfx(r):
+    return r if isinstance(r, bytes) else r[0]
+
+
+def rule_users(r):
+    """None = valid-user"""
+    return None if isinstance(r, bytes) else r[1]
 
 # ----------------------------------------------------------------------------------------------
 # parse options
@@ -214,16 +239,27 @@ class Scope:
             lit = re_escape(self.val)
             pat = {"cp": "(?i)^" + lit, "hp": "(?i)^" + lit + "(:[0-9]+)?$"}[self.rkind]
             return '$HTTP["host"] %s "%s"' % ("!~" if self.neg else "=~", pat)
+        if self.kind == "J":
+            lit = re_escape(self.val)
+            pat = {"cp": "(?i)^" + lit, "cs": "(?i)" + lit + "$"}[self.rkind]
+            return '$HTTP["remoteip"] %s "%s"' % ("!~" if self.neg else "=~", pat)
+        if self.kind == "E":
+            return ""                      # plain else
         if self.kind == "I":
             return '$HTTP["remoteip"] %s "%s"' % ("!=" if self.neg else "==", self.net)
+
+    def ident(self):
+        return (self.kind, self.rkind, self.val, self.net)
 
     def tok(self):
         if self.kind == "G":
             return "G"
         if self.kind in "UH":
             return "%s%s:%s" % (self.kind, self.op, hx(self.val))
-        if self.kind in "RQ":
+        if self.kind in "RQJ":
             return "%s%d:%s:%s" % (self.kind, 1 if self.neg else 0, self.rkind, hx(self.val))
+        if self.kind == "E":
+            return None
         n = ipaddress.ip_network(self.net, strict=False) if "/" in self.net else None
         a = ipaddress.ip_address(self.net.split("/")[0])
         bits = int(self.net.split("/")[1]) if n is not None else 0
@@ -231,8 +267,12 @@ class Scope:
 
     # reference semantics (independent of the Lean model), used by the oracle
     def holds(self, url, host, addr):
-        if self.kind == "G":
+        if self.kind in "GE":
             return True
+        if self.kind == "J":
+            t = addr.lower()
+            m = t.startswith(self.val.lower()) if self.rkind == "cp" else t.endswith(self.val.lower())
+            return m != self.neg
         if self.kind in "UH":
             l = url if self.kind == "U" else host
             if self.kind == "H" and self.op in "en":
@@ -329,9 +369,34 @@ def ref_authority(raw, flags):
 
 
 class Block:
-    def __init__(self, scope, allow=None, deny=None, auth=None, excl=None, fwd=None, fhdrs=None):
-        self.scope, self.allow, self.deny, self.auth, self.excl, self.fwd, self.fhdrs = \
-            scope, allow, deny, auth, excl, fwd, fhdrs
+    """one configuration block; `parent` / `prev` (Block or None) place it inside another block /
+    make it the else-branch of another block"""
+    def __init__(self, scope, allow=None, deny=None, auth=None, excl=None, fwd=None, fhdrs=None, npi=None,
+                 parent=None, prev=None):
+        self.scope, self.allow, self.deny, self.auth, self.excl, self.fwd, self.fhdrs, self.npi = \
+            scope, allow, deny, auth, excl, fwd, fhdrs, npi
+        self.parent, self.prev = parent, prev
+
+    def parts(self):
+        """the effective condition: [(negated, Scope)], enclosing blocks first"""
+        out = []
+        if self.parent is not None:
+            out += self.parent.parts()
+        q = self.prev
+        prevs = []
+        while q is not None:
+            prevs.append(q)
+            q = q.prev
+        out += [(True, q.scope) for q in reversed(prevs)]
+        if self.scope.kind != "E":
+            out.append((False, self.scope))
+        return out
+
+    def holds(self, url, host, addr):
+        return all(sc.holds(url, host, addr) != neg for neg, sc in self.parts())
+
+    def kinds(self):
+        return "".join(sorted(set(sc.kind for _, sc in self.parts())))
 
     def body(self):
         out = []
@@ -341,10 +406,14 @@ class Block:
             out.append("url.access-deny = (%s)" % ", ".join(cstr(v) for v in self.deny))
         if self.auth is not None:
             out.append("auth.require = (%s)" % ", ".join(
-                '%s => ("method" => "basic", "realm" => "r%d", "require" => "valid-user")' % (cstr(k), i)
+                '%s => ("method" => "basic", "realm" => "r%d", "require" => "%s")'
+                % (cstr(rule_pfx(k)), i, "valid-user" if rule_users(k) is None else
+                   "|".join("user=" + u.decode() for u in rule_users(k)))
                 for i, k in enumerate(self.auth)))
         if self.excl is not None:
             out.append("static-file.exclude-extensions = (%s)" % ", ".join(cstr(v) for v in self.excl))
+        if self.npi is not None:
+            out.append('static-file.disable-pathinfo = "%s"' % ("enable" if self.npi else "disable"))
         if self.fwd is not None:
             out.append("extforward.forwarder = (%s)" % ", ".join("%s => %s" % (cstr(k), cstr(v))
                                                                   for k, v in self.fwd))
@@ -359,10 +428,44 @@ class Block:
             if not l:
                 return "."
             return ",".join(hx(v) for v in l)
+        def auth(l):
+            if l is None:
+                return "~"
+            if not l:
+                return "."
+            return ",".join(hx(rule_pfx(r)) + ("" if rule_users(r) is None else
+                                               "@" + "+".join(hx(u) for u in rule_users(r))) for r in l)
         fw = "~" if self.fwd is None else ("-" if not self.fwd else
                                            ",".join("%s=%s" % (hx(k), hx(v)) for k, v in self.fwd))
-        return "|".join([self.scope.tok(), lst(self.allow), lst(self.deny), lst(self.auth), lst(self.excl),
-                         fw, lst(self.fhdrs)])
+        sc = "&".join(("!" if neg else "") + x.tok() for neg, x in self.parts()) or "G"
+        return "|".join([sc, lst(self.allow), lst(self.deny), auth(self.auth), lst(self.excl),
+                         fw, lst(self.fhdrs), "~" if self.npi is None else str(int(self.npi))])
+
+
+def conf_blocks(blocks):
+    """lighttpd.conf text of the blocks (file order = list order): children inside their parent,
+    else-branches after the closing brace of the block they follow"""
+    t = ""
+    for b in blocks:
+        if b.parent is not None or b.prev is not None:
+            continue
+        t += conf_block(b, blocks, "")
+    return t
+
+
+def conf_block(b, blocks, ind):
+    st = b.scope.text()
+    if st is None:
+        return "".join(l + "\n" for l in b.body())
+    t = ind + (st + " " if st else "") + "{\n" + "".join(ind + "  " + l + "\n" for l in b.body())
+    for c in blocks:
+        if c.parent is b and c.prev is None:
+            t += conf_block(c, blocks, ind + "  ")
+    t += ind + "}\n"
+    for c in blocks:
+        if c.prev is b:
+            t += ind + "else " + conf_block(c, blocks, ind).lstrip()
+    return t
 
 
 class Config:
@@ -377,12 +480,7 @@ class Config:
             t += 'server.force-lowercase-filenames = "enable"\n'
         t += profile_text(self.profile)
         t += 'auth.backend = "plain"\nauth.backend.plain.userfile = "@USERFILE@"\n'
-        for b in self.blocks:
-            st = b.scope.text()
-            if st is None:
-                t += "".join(l + "\n" for l in b.body())
-            else:
-                t += st + " {\n" + "".join("  " + l + "\n" for l in b.body()) + "}\n"
+        t += conf_blocks(self.blocks)
         return t.encode()
 
     def head(self, root):
@@ -393,7 +491,7 @@ class Config:
         v = None
         for b in self.blocks:
             x = getattr(b, name)
-            if x is not None and b.scope.holds(url, host, addr):
+            if x is not None and b.holds(url, host, addr):
                 v = x
         return v
 
@@ -616,9 +714,13 @@ def ref_authorised(cfg, rq, f, addr):
         return "static-file.exclude-extensions lists it"
     auth = cfg.setting("auth", f, host, addr) or []
     fl = f.lower() if cfg.lc else f
-    if any(fl.startswith(k.lower() if cfg.lc else k) for k in auth):
-        if rq.field(b"authorization") != GOOD_CRED:
+    guard = next((k for k in auth if fl.startswith(rule_pfx(k).lower() if cfg.lc else rule_pfx(k))), None)
+    if guard is not None:
+        user = USER_OF.get(rq.field(b"authorization"))
+        if user is None:
             return "auth.require guards it and the request has no valid credentials"
+        if rule_users(guard) is not None and user not in rule_users(guard):
+            return "auth.require guards it for other users than the one authenticated"
     return None
 
 
@@ -687,7 +789,11 @@ def srv_classify(line, out):
     cfg, reqs = ent
     o = out.split(" ")
     sts = sorted(set(x.split(",")[0] for x in o[2:])) if len(o) > 2 else []
-    kinds = "".join(sorted(set(b.scope.kind for b in cfg.blocks)))
+    kinds = "".join(sorted(set("".join(b.kinds() for b in cfg.blocks))))
+    if any(b.parent is not None for b in cfg.blocks):
+        kinds += "+nest"
+    if any(b.prev is not None for b in cfg.blocks):
+        kinds += "+else"
     mech = "".join(c for c, n in (("a", "allow"), ("d", "deny"), ("u", "auth"), ("x", "excl"), ("f", "fwd"))
                    if any(getattr(b, n) is not None for b in cfg.blocks))
     return "srv:%d:%d:%s:%s:%s" % (cfg.flags, cfg.lc, kinds, mech, ",".join(sts))
@@ -822,10 +928,51 @@ GARBAGE = [b"unknown", b"_hidden", b"1.2.3", b"999.1.1.1", b"1.2.3.4.5", b":::",
            b"010.0.0.1", b"::ffff:10.0.0.1", b"::ffff:10.0.0.2", b"1::2::3", b"10.0.0.1/8", b"/run/sock"]
 
 
+AUTH_USER_SETS = [[(b"/secret/sub/", [b"admin"]), b"/secret/"], [(b"/private", [b"admin", b"bob"])],
+                  [(b"/secret/", [b"alice"]), (b"/private", [b"admin"])], [(b"/", [b"bob"])],
+                  [(b"/dir/", [b"alice", b"admin"]), b"/pub/"]]
+# (limits only) an earlier, weaker rule whose prefix reaches into the path-info of a file
+AUTH_ORDER_LIMIT = [[b"/secret/key.html/pub", (b"/secret/", [b"admin"])], [b"/app.php/open", (b"/", [b"admin"])]]
+IPRE_SCOPES = [("cp", b"10."), ("cp", b"192.168."), ("cs", b".9"), ("cp", b"2001:db8:")]
+
+
+def rand_scope(rng, lc, limits):
+    k = rng.random()
+    if k < 0.42:
+        if lc and not limits:
+            if rng.random() < 0.6:
+                rk, lit = rng.choice(RE_SCOPES)
+                return Scope("R", rkind=rk, val=lit, neg=rng.random() < 0.15)
+            op, v = rng.choice(URL_SCOPES_NOLETTER)
+            return Scope("U", op=op, val=v)
+        if rng.random() < 0.25:
+            rk, lit = rng.choice(RE_SCOPES + [("sub", b"secret"), ("sub", b"/x.")])
+            return Scope("R", rkind=rk, val=lit, neg=rng.random() < 0.15)
+        op, v = rng.choice(URL_SCOPES_CS)
+        return Scope("U", op=op, val=v)
+    if k < 0.68:
+        if rng.random() < 0.3:
+            rk, v = rng.choice(HOST_RE_SCOPES)
+            return Scope("Q", rkind=rk, val=v, neg=rng.random() < 0.25)
+        op, v = rng.choice(HOST_SCOPES)
+        return Scope("H", op=op, val=v)
+    if k < 0.76:
+        rk, v = rng.choice(IPRE_SCOPES)
+        return Scope("J", rkind=rk, val=v, neg=rng.random() < 0.3)
+    neg, net = rng.choice(IP_SCOPES)
+    return Scope("I", neg=neg, net=net)
+
+
+def url_atoms(b):
+    return [(neg, sc) for neg, sc in b.parts() if sc.kind in "UR"]
+
+
 def rand_blocks(rng, lc, limits=False):
     """a configuration whose rules are all of the kinds the property claims robust.
-    limits=True additionally uses the two constructions lighttpd does not make robust
-    (letter-bearing url conditions under force-lowercase; suffix conditions guarding auth)."""
+    limits=True additionally uses the constructions lighttpd does not make robust
+    (letter-bearing url conditions under force-lowercase; url conditions guarding auth that do not
+    survive an appended path-info; an earlier weaker auth rule reaching into a path-info).
+    Blocks may be nested in one another and chained with else."""
     g = Block(Scope("G"))
     r = rng.random()
     if r < 0.45:
@@ -833,68 +980,80 @@ def rand_blocks(rng, lc, limits=False):
     elif r < 0.6:
         g.allow = rng.choice(ALLOW_SETS)
     if rng.random() < 0.35:
-        g.auth = rng.choice(AUTH_SETS)
+        g.auth = rng.choice(AUTH_SETS + AUTH_USER_SETS + (AUTH_ORDER_LIMIT if limits else []))
     if rng.random() < 0.35:
         g.excl = rng.choice(EXCL_SETS)
+    if rng.random() < 0.08:
+        g.npi = True
     if rng.random() < 0.6:
         g.fwd = rng.choice(FWD_SETS)
         if rng.random() < 0.4:
             g.fhdrs = rng.choice([[b"Forwarded"], [b"Forwarded", b"X-Forwarded-For"], [b"X-Real-IP"],
                                   [b"X-Forwarded-For", b"Forwarded"]])
     blocks = [g]
-    for _ in range(rng.choice([0, 1, 1, 2, 2, 3])):
-        k = rng.random()
-        if k < 0.45:
-            if lc and not limits:
-                if rng.random() < 0.6:
-                    rk, lit = rng.choice(RE_SCOPES)
-                    sc = Scope("R", rkind=rk, val=lit, neg=rng.random() < 0.15)
-                else:
-                    op, v = rng.choice(URL_SCOPES_NOLETTER)
-                    sc = Scope("U", op=op, val=v)
-            elif rng.random() < 0.25:
-                rk, lit = rng.choice(RE_SCOPES + [("sub", b"secret"), ("sub", b"/x.")])
-                sc = Scope("R", rkind=rk, val=lit, neg=rng.random() < 0.15)
-            else:
-                op, v = rng.choice(URL_SCOPES_CS)
-                sc = Scope("U", op=op, val=v)
-        elif k < 0.7:
-            if rng.random() < 0.3:
-                rk, v = rng.choice(HOST_RE_SCOPES)
-                sc = Scope("Q", rkind=rk, val=v, neg=rng.random() < 0.25)
-            else:
-                op, v = rng.choice(HOST_SCOPES)
-                sc = Scope("H", op=op, val=v)
+    head = None                     # the block the next one may be nested in / chained to
+    for _ in range(rng.choice([0, 1, 1, 2, 2, 3, 4])):
+        r = rng.random()
+        parent = prev = None
+        if head is not None and r < 0.22:
+            parent = head
+        elif head is not None and r < 0.44 and not any(c.prev is head for c in blocks):
+            prev, parent = head, head.parent
+        if prev is not None and rng.random() < 0.3:
+            sc = Scope("E")
         else:
-            neg, net = rng.choice(IP_SCOPES)
-            sc = Scope("I", neg=neg, net=net)
-        if sc.text() in [x.scope.text() for x in blocks]:
-            continue               # (the parser merges blocks with the same condition)
-        b = Block(sc)
+            sc = rand_scope(rng, lc, limits)
+            if sc.ident() in [x.scope.ident() for x in blocks]:
+                # the parser merges blocks with the same condition, and keys a plain else by the
+                # negated operator of the block it follows: one block per (variable, value)
+                continue
+        b = Block(sc, parent=parent, prev=prev)
+        ua = url_atoms(b)
         r = rng.random()
         if r < 0.5:
             b.deny = rng.choice(DENY_SETS + [[b""], [b""], []])
         elif r < 0.62:
             b.allow = rng.choice(ALLOW_SETS + [[]])
         elif r < 0.8:
-            # auth rules only in scopes that still hold when path-info is appended
-            # (regular expressions are not: PCRE2 in UTF mode refuses a subject with a stray
-            #  byte such as %80 in the path-info)
-            monotone = sc.kind in "HIQ" or (sc.kind == "U" and sc.op == "p")
+            # auth rules only where the condition still holds when a path-info is appended: no URL
+            # condition other than a positive `=^` (regular expressions do not qualify: PCRE2 in UTF mode
+            # refuses a subject with a stray byte such as %80 in the path-info)
+            monotone = all(not neg and sc_.kind == "U" and sc_.op == "p" for neg, sc_ in ua)
             if monotone or limits:
-                b.auth = rng.choice(AUTH_SETS)
+                b.auth = rng.choice(AUTH_SETS + AUTH_USER_SETS)
             else:
                 b.deny = [b""]
-        else:
+        elif r < 0.9:
             b.excl = rng.choice(EXCL_SETS + [[]])
+        else:
+            b.npi = rng.random() < 0.7
         if rng.random() < 0.15:
             b.deny = b.deny if b.deny is not None else rng.choice(DENY_SETS)
-        if sc.kind in "IHQ" and rng.random() < 0.4:
+        if not ua and rng.random() < 0.4:
             # an extforward directive makes mod_extforward evaluate (and cache) this condition with the
             # TCP peer's address before it changes the address
             b.fhdrs = rng.choice([[b"X-Forwarded-For", b"Forwarded"], [b"Forwarded"], [b"X-Forwarded-For"]])
         blocks.append(b)
-    return blocks
+        head = None if sc.kind == "E" else b          # (nothing may follow a plain else)
+    return order_blocks(blocks)
+
+
+def order_blocks(blocks):
+    """file order: a block, the blocks nested in it, then its else-branch"""
+    out = []
+
+    def put(b):
+        out.append(b)
+        for c in blocks:
+            if c.parent is b and c.prev is None:
+                put(c)
+        for c in blocks:
+            if c.prev is b:
+                put(c)
+    for b in blocks:
+        if b.parent is None and b.prev is None:
+            put(b)
+    return out
 
 
 def heavy_forwarded(rng, trusted_pool):
@@ -1010,9 +1169,11 @@ def rand_request(rng, cfg, base=None, depth=None):
         if rng.random() < 0.1:
             fields.append(rand_chain_header(rng, pool))
     r = rng.random()
-    if r < 0.25:
+    if r < 0.2:
         fields.append((b"Authorization", GOOD_CRED))
-    elif r < 0.35:
+    elif r < 0.32:
+        fields.append((b"Authorization", rng.choice([ADMIN_CRED, BOB_CRED])))
+    elif r < 0.4:
         fields.append((b"Authorization", BAD_CRED))
     absolute = None
     if kind == 1:
@@ -1450,6 +1611,13 @@ def known_scenarios(root):
          "before the path-info split only) -> 200 with the file",
          Config([Block(Scope("G")), Block(Scope("U", op="s", val=b".php"), auth=[b"/"])], [], False),
          Request(1, peer, b"/app.php"), Request(1, peer, b"/app.php/x"), b"/app.php"),
+        ("known:L3-auth-before-pathinfo-split:rule-order",
+         'auth.require = ("/secret/key.html/pub" => valid-user, "/secret/" => user=admin): user alice gets 401 for '
+         "/secret/key.html, but /secret/key.html/pub is guarded by the earlier, weaker rule (first prefix match on "
+         "the path before the path-info split) -> 200 with the file",
+         Config([Block(Scope("G"), auth=[b"/secret/key.html/pub", (b"/secret/", [b"admin"])])], [], False),
+         Request(1, peer, b"/secret/key.html", fields=[(b"Authorization", GOOD_CRED)]),
+         Request(1, peer, b"/secret/key.html/pub", fields=[(b"Authorization", GOOD_CRED)]), b"/secret/key.html"),
     ]
 
 
@@ -1494,12 +1662,7 @@ def e2e_conf_body(cfg, root):
         t += 'server.force-lowercase-filenames = "enable"\n'
     t += profile_text(cfg.profile)
     t += 'auth.backend = "plain"\nauth.backend.plain.userfile = "%s"\n' % os.path.join(root, "users.txt")
-    for b in cfg.blocks:
-        st = b.scope.text()
-        if st is None:
-            t += "".join(l + "\n" for l in b.body())
-        else:
-            t += st + " {\n" + "".join("  " + l + "\n" for l in b.body()) + "}\n"
+    t += conf_blocks(cfg.blocks)
     return t
 
 
@@ -1682,22 +1845,37 @@ def parse_case(line):
 
     def lst(x):
         return None if x == "~" else ([] if x == "." else [unhx(v) for v in x.split(",")])
+    def atom(sc):
+        if sc == "G":
+            return Scope("G")
+        if sc[0] in "UH":
+            return Scope(sc[0], op=sc[1], val=unhx(sc.split(":")[1]))
+        if sc[0] in "RQJ":
+            _, rk, lit = sc.split(":")
+            return Scope(sc[0], rkind=rk, val=unhx(lit), neg=sc[1] == "1")
+        _, fam, a, bits = sc.split(":")
+        net = str(ipaddress.ip_address(bytes.fromhex(a)))
+        return Scope("I", neg=sc[1] == "1", net=net + ("/" + bits if bits != "0" else ""))
+
+    def rules(x):
+        if x in ("~", "."):
+            return None if x == "~" else []
+        out = []
+        for r in x.split(","):
+            if "@" in r:
+                p_, us = r.split("@")
+                out.append((unhx(p_), [unhx(u) for u in us.split("+")]))
+            else:
+                out.append(unhx(r))
+        return out
     blocks = []
     for bt in t[6:sep]:
-        sc, al, dn, au, ex, fw, fh = bt.split("|")
-        if sc == "G":
-            scope = Scope("G")
-        elif sc[0] in "UH":
-            scope = Scope(sc[0], op=sc[1], val=unhx(sc.split(":")[1]))
-        elif sc[0] in "RQ":
-            _, rk, lit = sc.split(":")
-            scope = Scope(sc[0], rkind=rk, val=unhx(lit), neg=sc[1] == "1")
-        else:
-            _, fam, a, bits = sc.split(":")
-            net = str(ipaddress.ip_address(bytes.fromhex(a)))
-            scope = Scope("I", neg=sc[1] == "1", net=net + ("/" + bits if bits != "0" else ""))
+        sc, al, dn, au, ex, fw, fh, np_ = bt.split("|")
         fwd = None if fw == "~" else ([] if fw == "-" else [tuple(unhx(x) for x in e.split("=")) for e in fw.split(",")])
-        blocks.append(Block(scope, lst(al), lst(dn), lst(au), lst(ex), fwd, lst(fh)))
+        blk = Block(Scope("G"), lst(al), lst(dn), rules(au), lst(ex), fwd, lst(fh), None if np_ == "~" else np_ == "1")
+        prts = [(a_.startswith("!"), atom(a_.lstrip("!"))) for a_ in sc.split("&")]
+        blk.parts = (lambda pr: (lambda: pr))(prts)
+        blocks.append(blk)
     cfg = Config(blocks, [], lc)
     cfg.flags = flags
     cfg.text = lambda: unhx(t[1])
